@@ -327,3 +327,24 @@ pub fn duplicate_request(rec: &RunRecord, kind: Kind, ignore_in_sort: bool) -> O
     }
     None
 }
+
+
+/// Packages whose candidates answer was delivered to the solver.
+pub fn cand_received(rec: &RunRecord) -> BTreeSet<u32> {
+    let mut rid: BTreeMap<u64, u32> = BTreeMap::new();
+    let mut out = BTreeSet::new();
+    for e in &rec.log {
+        match e {
+            Ev::Start { rid: r, kind: Kind::Cand, arg, .. } => {
+                rid.insert(*r, *arg);
+            }
+            Ev::Deliver { rid: r } => {
+                if let Some(a) = rid.get(r) {
+                    out.insert(*a);
+                }
+            }
+            _ => {}
+        }
+    }
+    out
+}
